@@ -6,6 +6,7 @@ import (
 	"fmt"
 	"os"
 	"path/filepath"
+	"regexp"
 	"sort"
 	"strings"
 	"time"
@@ -25,6 +26,8 @@ func main() {
 	}
 }
 
+var regexpClass = regexp.MustCompile(`class="([^"]*)"`)
+
 func hasTag(tags []string, t string) bool {
 	for _, x := range tags {
 		if x == t {
@@ -32,6 +35,62 @@ func hasTag(tags []string, t string) bool {
 		}
 	}
 	return false
+}
+
+type knownFinding struct {
+	Prop, Obl, Class, What string
+}
+
+func readKnown(path string) ([]knownFinding, []string) {
+	data, err := os.ReadFile(path)
+	if err != nil {
+		return nil, nil
+	}
+	var ks []knownFinding
+	var fixed []string
+	for _, line := range strings.Split(string(data), "\n") {
+		line = strings.TrimSpace(line)
+		if strings.HasPrefix(line, "fixed:") {
+			fixed = append(fixed, line)
+			continue
+		}
+		if !strings.HasPrefix(line, "known:") {
+			continue
+		}
+		body := strings.TrimSpace(strings.TrimPrefix(line, "known:"))
+		what := ""
+		if k := strings.Index(body, "::"); k >= 0 {
+			what = strings.TrimSpace(body[k+2:])
+			body = body[:k]
+		}
+		kf := knownFinding{What: what}
+		// fields: property=.. obligation=.. class="..."
+		if m := regexpClass.FindStringSubmatch(body); m != nil {
+			kf.Class = m[1]
+			body = strings.Replace(body, m[0], "", 1)
+		}
+		for _, f := range strings.Fields(body) {
+			kv := strings.SplitN(f, "=", 2)
+			if len(kv) != 2 {
+				continue
+			}
+			switch kv[0] {
+			case "property":
+				kf.Prop = kv[1]
+			case "obligation":
+				kf.Obl = kv[1]
+			}
+		}
+		ks = append(ks, kf)
+	}
+	return ks, fixed
+}
+
+func oblOK(o *Obligation) bool {
+	if o.Kind == "cover" {
+		return o.Result != "unsat"
+	}
+	return o.Result == "unsat" || o.Result == "static-ok"
 }
 
 func cmdVerify(args []string) int {
@@ -44,15 +103,24 @@ func cmdVerify(args []string) int {
 	verbose := fs.Bool("v", false, "verbose")
 	keep := fs.String("keep", "", "keep SMT files in this directory")
 	evid := fs.String("evidence", "", "write evidence JSON here")
+	replayDir := fs.String("replays", "", "directory for replay files")
+	knownPath := fs.String("known", "/verif/known_findings.txt", "known findings file")
+	level := fs.String("level", "proof", "evidence level")
 	fs.Parse(args)
 	if *cdir == "" {
 		*cdir = *repo
 	}
+	seed := 0
+	fmt.Sscan(os.Getenv("VERIF_SEED"), &seed)
 	t0 := time.Now()
 	w, err := loadWorld(*repo, *cdir)
 	if err != nil {
 		fmt.Println("load error:", err)
-		return 2
+		if *prop != "" {
+			// a tree that does not load cannot be verified: report as violation of the property under check
+			fmt.Printf("VIOLATION property=%s replay=%s no-failing-input-found\n", *prop, writeReplay(*replayDir, *prop, "load", map[string]interface{}{"obligation": "load", "error": err.Error()}))
+		}
+		return 1
 	}
 	loadT := time.Since(t0)
 	eng := newEngine(w)
@@ -111,35 +179,79 @@ func cmdVerify(args []string) int {
 	}
 	dischargeAll(all, dir, timeout, 10)
 	solveT := time.Since(t0) - loadT - genT
-	fails := 0
-	for _, rep := range reports {
-		if rep.Status == "out-of-reach" {
-			fmt.Printf("OUT-OF-REACH %s: %s\n", rep.Key, rep.Reason)
-			fails++
-		}
-	}
+
+	known, fixed := readKnown(*knownPath)
+	_ = fixed
+	violations := 0
 	nd := 0
+	solverSecs := 0.0
+	bySolver := map[string]int{}
+	var failed []*Obligation
 	for _, o := range all {
-		ok := o.Result == "unsat" || o.Result == "static-ok"
-		if o.Kind == "cover" {
-			ok = o.Result != "unsat"
-		}
-		if ok {
+		solverSecs += o.Time
+		if oblOK(o) {
 			nd++
+			if o.Static {
+				bySolver["static"]++
+			} else {
+				bySolver[o.Solver]++
+			}
+		} else {
+			failed = append(failed, o)
 		}
-		if !ok || *verbose {
+		if *verbose || !oblOK(o) {
 			status := "ok  "
-			if !ok {
+			if !oblOK(o) {
 				status = "FAIL"
-				fails++
 			}
 			fmt.Printf("%s %-70s %-10s %-7s %.2fs  %s %s\n", status, o.Name, o.Result, o.Solver, o.Time, o.Where, o.Detail)
-			if !ok && o.Model != "" && *verbose {
+			if !oblOK(o) && o.Model != "" && *verbose {
 				fmt.Println(indent(o.Model, "      "))
 			}
 		}
 	}
-	fmt.Printf("functions=%d obligations=%d discharged=%d failures=%d load=%.1fs gen=%.1fs solve=%.1fs\n", len(reports), len(all), nd, fails, loadT.Seconds(), genT.Seconds(), solveT.Seconds())
+	var outOfReach []string
+	for _, rep := range reports {
+		if rep.Status == "out-of-reach" {
+			outOfReach = append(outOfReach, rep.Key+": "+rep.Reason)
+			fmt.Printf("OUT-OF-REACH %s: %s\n", rep.Key, rep.Reason)
+		}
+	}
+	pid := *prop
+	if pid == "" {
+		pid = "ALL"
+	}
+	knownHit := map[string]bool{}
+	for _, o := range failed {
+		isKnown := false
+		for _, k := range known {
+			if k.Obl == o.Name && (k.Prop == pid || pid == "ALL") {
+				isKnown = true
+				if !knownHit[k.Obl] {
+					knownHit[k.Obl] = true
+					fmt.Printf("KNOWN-FINDING: property=%s %s: %s\n", k.Prop, k.Obl, k.What)
+				}
+			}
+		}
+		if isKnown {
+			continue
+		}
+		violations++
+		path := writeReplay(*replayDir, pid, o.Name, map[string]interface{}{
+			"obligation": o.Name, "function": o.Func, "kind": o.Kind, "where": o.Where, "result": o.Result, "solver": o.Solver,
+			"solver_output_model": o.Model, "detail": o.Detail, "goal": o.Goal.String(), "failing_input": nil,
+		})
+		fmt.Printf("VIOLATION property=%s replay=%s no-failing-input-found\n", pid, path)
+	}
+	for _, r := range outOfReach {
+		violations++
+		path := writeReplay(*replayDir, pid, "out-of-reach-"+strings.SplitN(r, ":", 2)[0], map[string]interface{}{
+			"obligation": strings.SplitN(r, ":", 2)[0] + "/in-reach", "detail": r, "failing_input": nil,
+			"note": "the function under contract left the verifier's subset or its contract no longer matches the code; every obligation of the function is undischarged",
+		})
+		fmt.Printf("VIOLATION property=%s replay=%s no-failing-input-found\n", pid, path)
+	}
+	fmt.Printf("functions=%d obligations=%d discharged=%d violations=%d load=%.1fs gen=%.1fs solve=%.1fs\n", len(reports), len(all), nd, violations, loadT.Seconds(), genT.Seconds(), solveT.Seconds())
 	if *verbose {
 		for _, rep := range reports {
 			for _, n := range rep.Notes {
@@ -147,14 +259,113 @@ func cmdVerify(args []string) int {
 			}
 		}
 	}
-	if *evid != "" {
-		b, _ := json.MarshalIndent(map[string]interface{}{"functions": len(reports), "obligations": len(all), "discharged": nd}, "", " ")
-		os.WriteFile(*evid, b, 0o644)
+	if len(all) == 0 {
+		fmt.Println("no obligations generated: vacuous run")
+		violations++
 	}
-	if fails > 0 {
+	if *evid != "" {
+		writeEvidence(*evid, pid, *tier, seed, *level, w, reports, all, nd, violations, bySolver, solverSecs, time.Since(t0).Seconds(), known, knownHit)
+	}
+	if violations > 0 {
 		return 1
 	}
 	return 0
+}
+
+func writeReplay(dir, prop, name string, body map[string]interface{}) string {
+	if dir == "" {
+		dir = "/verif/replays"
+	}
+	d := filepath.Join(dir, prop)
+	os.MkdirAll(d, 0o755)
+	p := filepath.Join(d, sanitize(name)+".json")
+	body["property"] = prop
+	b, _ := json.MarshalIndent(body, "", " ")
+	os.WriteFile(p, b, 0o644)
+	return p
+}
+
+func writeEvidence(path, prop, tier string, seed int, level string, w *World, reports []*FuncReport, all []*Obligation, nd, violations int, bySolver map[string]int, solverSecs, wall float64, known []knownFinding, knownHit map[string]bool) {
+	var funcs []map[string]interface{}
+	trusted := map[string]bool{}
+	assumptions := map[string]bool{
+		"govc's reading of Go (forward symbolic execution of the typed AST of /repo's working tree)": true,
+		"SMT solvers z3 4.8.12 / z3 5.1.0 / cvc5 1.0.3 are sound":                                    true,
+		"Kahn semantics: every channel has one writer and one reader, stages only block on channel operations; contracts describe complete histories assuming the network does not deadlock; channel capacities are dropped": true,
+		"machine arithmetic treated as mathematical: int as Int, float32/64 and helper.Number type parameters as Real (no rounding, NaN, Inf, overflow)":                                                                     true,
+		"goroutines of one function are executed sequentially in spawn order (histories are schedule independent under the Kahn assumption)":                                                                                 true,
+	}
+	for _, rep := range reports {
+		f := map[string]interface{}{"function": rep.Key, "status": rep.Status, "obligations": len(rep.Obls)}
+		if rep.Reason != "" {
+			f["reason"] = rep.Reason
+		}
+		funcs = append(funcs, f)
+		for _, n := range rep.Notes {
+			switch {
+			case strings.HasPrefix(n, "trusted contract:"), strings.HasPrefix(n, "assumed external:"):
+				trusted[n] = true
+			case strings.HasPrefix(n, "inlined:"), strings.HasPrefix(n, "callee contract:"):
+			default:
+				assumptions[n] = true
+			}
+		}
+	}
+	var samples []map[string]interface{}
+	step := len(all)/6 + 1
+	for i := 0; i < len(all); i += step {
+		o := all[i]
+		samples = append(samples, map[string]interface{}{"obligation": o.Name, "kind": o.Kind, "where": o.Where, "result": o.Result, "solver": o.Solver, "seconds": o.Time, "goal": truncate(o.Goal.String(), 300), "hypotheses": len(o.Hyps)})
+	}
+	var kf []string
+	for _, k := range known {
+		if knownHit[k.Obl] {
+			kf = append(kf, k.Obl+": "+k.What)
+		}
+	}
+	var inl, callee []string
+	seen := map[string]bool{}
+	for _, rep := range reports {
+		for _, n := range rep.Notes {
+			if seen[n] {
+				continue
+			}
+			seen[n] = true
+			if strings.HasPrefix(n, "inlined:") {
+				inl = append(inl, strings.TrimPrefix(n, "inlined: "))
+			}
+			if strings.HasPrefix(n, "callee contract:") {
+				callee = append(callee, strings.TrimPrefix(n, "callee contract: "))
+			}
+		}
+	}
+	ev := map[string]interface{}{
+		"property_id": prop, "tier": tier, "seed": seed, "level": level, "wall_s": wall, "violations": violations,
+		"coverage": map[string]interface{}{
+			"obligations": len(all), "discharged": nd,
+			"checker_cmd":              "bin/govc verify -prop " + prop + " -tier " + tier,
+			"trusted_base":             sortedKeys(trusted),
+			"functions_under_contract": funcs,
+			"inlined_leaf_functions":   inl,
+			"callee_contracts_used":    callee,
+			"discharged_by_backend":    bySolver,
+			"solver_seconds":           solverSecs,
+			"known_findings_set_aside": kf,
+			"samples":                  samples,
+			"explanation":              "obligations generated from /repo's working tree by forward symbolic execution against the //@ contracts in */zz_contracts_verif.go; each discharged by an SMT back end (unsat of hypotheses and negated goal); cover obligations (vacuity guards) must not be unsat",
+		},
+		"assumptions": sortedKeys(assumptions),
+	}
+	os.MkdirAll(filepath.Dir(path), 0o755)
+	b, _ := json.MarshalIndent(ev, "", " ")
+	os.WriteFile(path, b, 0o644)
+}
+
+func truncate(s string, n int) string {
+	if len(s) > n {
+		return s[:n] + "…"
+	}
+	return s
 }
 
 func indent(s, p string) string {
